@@ -20,38 +20,54 @@ import (
 	"os"
 	"path/filepath"
 	"strconv"
+	"strings"
 	"testing"
 )
 
-type zzC02Line struct {
-	Kind    string           `json:"kind"`
-	I       int              `json:"i"`
-	RRs     []zzC0102RR      `json:"rrs"`
-	Answers [][]int          `json:"answers"`
-	QName   []string         `json:"qname"`
-	Cfg     zzC0102Cfg       `json:"cfg"`
-	Tab     []zzC02Entry     `json:"tab"`
+// zzC02Entry is one entry of a configuration's table: the answer section
+// number K (1-based index into the header's list), the query type, the name
+// asked, the owner name of every record of the section, the admissible
+// outcomes for a first-time question (Out) and for a repeated one (OutR, with
+// the response cache on).
+type zzC02Entry struct {
+	K    int          `json:"k"`
+	Qt   string       `json:"qt"`
+	Name []string     `json:"name"`
+	Own  [][]string   `json:"own"`
+	Out  []zzC0102Out `json:"out"`
+	OutR []zzC0102Out `json:"outr"`
 }
 
-// zzC02Entry is one entry of a configuration's table: the answer section
-// number K (1-based index into the header's list), the query type and the
-// admissible outcomes.
-type zzC02Entry struct {
-	K   int          `json:"k"`
-	Qt  string       `json:"qt"`
-	Out []zzC0102Out `json:"out"`
+type zzC02Step struct {
+	CI  int          `json:"ci"`
+	Cfg zzC0102Cfg   `json:"cfg"`
+	Tab []zzC02Entry `json:"tab"`
+}
+
+// zzC02Line is the header (record alphabet, answer sections as index
+// sequences) or a walk of ONE live server through configurations.
+type zzC02Line struct {
+	Kind    string      `json:"kind"`
+	I       int         `json:"i"`
+	RRs     []zzC0102RR `json:"rrs"`
+	Answers [][]int     `json:"answers"`
+	Steps   []zzC02Step `json:"steps"`
 }
 
 type zzC02Bad struct {
 	Kind     string       `json:"kind"`
 	I        int          `json:"i"`
+	S        int          `json:"s"`
 	Q        int          `json:"q"`
 	Qtype    string       `json:"qtype"`
+	Name     []string     `json:"name"`
+	Rep      bool         `json:"rep"`
 	Ans      []zzC0102RR  `json:"ans"`
 	Got      zzC0102Out   `json:"got"`
 	Want     []zzC0102Out `json:"want"`
 	Concrete string       `json:"concrete"`
 	Lists    any          `json:"lists"`
+	History  any          `json:"history"`
 }
 
 func TestZZVerifC02Replay(t *testing.T) {
@@ -65,7 +81,7 @@ func TestZZVerifC02Replay(t *testing.T) {
 
 	dir := zzC0102WorkDir(t)
 	var hdr zzC02Line
-	lineNo, cfgs, evals, bad := 0, 0, 0, 0
+	lineNo, walks, cfgs, evals, bad, reconfs := 0, 0, 0, 0, 0, 0
 	zzReadNDJSON(t, "VERIF_IN", func(b []byte) {
 		var l zzC02Line
 		if err := json.Unmarshal(b, &l); err != nil {
@@ -85,53 +101,75 @@ func TestZZVerifC02Replay(t *testing.T) {
 
 		rng := rand.New(rand.NewSource(zzSeed()*1000003 + int64(l.I)))
 		d := filepath.Join(dir, strconv.Itoa(l.I))
-		z, err := zzC0102Build(&l.Cfg, d, rng)
+		z, err := zzC0102Build(&l.Steps[0].Cfg, d, rng)
 		if err != nil {
-			w.put(map[string]any{"kind": "skip", "i": l.I, "err": err.Error()})
+			w.put(map[string]any{"kind": "skip", "i": l.I, "configs": len(l.Steps), "err": err.Error()})
 
 			return
 		}
 		defer func() { z.close(); _ = os.RemoveAll(d) }()
 
-		cfgs++
-		for _, e := range l.Tab {
-			req := &zzC0102Req{Name: hdr.QName, Qtype: e.Qt, Client: "c1"}
-			ix := hdr.Answers[e.K-1]
-			ans := make([]zzC0102RR, len(ix))
-			for j, r := range ix {
-				ans[j] = hdr.RRs[r-1]
+		walks++
+		var history []any
+		for si := range l.Steps {
+			st := &l.Steps[si]
+			if si > 0 {
+				if err = z.reconfigure(&st.Cfg, rng); err != nil {
+					w.put(map[string]any{"kind": "skip", "i": l.I, "s": si, "configs": len(l.Steps) - si,
+						"err": err.Error(), "ops": z.ops})
+
+					return
+				}
+				reconfs++
 			}
 
-			o := z.query(req, ans, rng, "")
-			evals++
-			if zzC0102Admissible(o.Out, e.Out) {
-				continue
+			cfgs++
+			history = append(history, z.texts)
+			sends := 1
+			if st.Cfg.Cache {
+				sends = 2
 			}
+			for _, e := range st.Tab {
+				req := &zzC0102Req{Name: e.Name, Qtype: e.Qt, Client: "c1"}
+				ix := hdr.Answers[e.K-1]
+				ans := make([]zzC0102RR, len(ix))
+				for j, r := range ix {
+					ans[j] = hdr.RRs[r-1]
+					ans[j].O = e.Own[j]
+				}
 
-			o2 := z.query(req, ans, rng, "")
-			if zzC0102Admissible(o2.Out, e.Out) {
-				w.put(map[string]any{"kind": "flaky", "i": l.I, "q": e.K, "first": o, "second": o2})
+				for k := 0; k < sends; k++ {
+					o := z.query(req, ans, rng, "")
+					evals++
+					want := e.Out
+					if o.Rep && st.Cfg.Cache {
+						want = e.OutR
+					}
+					if zzC0102Admissible(o.Out, want) {
+						continue
+					}
 
-				continue
-			}
+					bad++
+					if bad <= 300 {
+						w.put(zzC02Bad{
+							Kind: "bad", I: l.I, S: si, Q: e.K, Qtype: e.Qt, Name: e.Name, Rep: o.Rep,
+							Ans: zzC0102FullRRs(ans), Got: o.Out, Want: want, Concrete: o.Concrete,
+							Lists: z.texts, History: history,
+						})
+					}
 
-			bad++
-			if bad <= 200 {
-				w.put(zzC02Bad{
-					Kind: "bad", I: l.I, Q: e.K, Qtype: e.Qt, Ans: zzC0102FullRRs(ans),
-					Got: o2.Out, Want: e.Out, Concrete: o2.Concrete, Lists: z.texts,
-				})
+					break
+				}
 			}
 		}
 
-		if cfgs <= 2 && len(hdr.RRs) >= 3 {
-			ans := []zzC0102RR{hdr.RRs[0], hdr.RRs[2]}
-			o := z.query(&zzC0102Req{Name: hdr.QName, Qtype: "A", Client: "c1"}, ans, rng, "")
-			w.put(map[string]any{"kind": "sample", "i": l.I, "lists": z.texts, "ans": ans, "obs": o})
+		if walks <= 2 {
+			w.put(map[string]any{"kind": "sample", "i": l.I, "history": history, "ops": z.ops})
 		}
 	})
 
-	w.put(map[string]any{"kind": "summary", "shard": idx, "configs": cfgs, "evals": evals, "bad": bad})
+	w.put(map[string]any{"kind": "summary", "shard": idx, "walks": walks, "configs": cfgs, "evals": evals,
+		"bad": bad, "reconfigurations": reconfs})
 }
 
 // ---------------------------------------------------------------- direction B
@@ -195,15 +233,26 @@ func TestZZVerifC02Trace(t *testing.T) {
 		t1 := zzC01RandName(rng, 4)
 		names := [][]string{qname, t1, append([]string{"cdn"}, t1...), zzC01RandName(rng, 3), t1[len(t1)-1:]}
 
-		cfg := zzC0102Cfg{Rules: []zzC0102Rule{}}
-		for i, nr := 0, rng.Intn(13); i < nr; i++ {
-			cfg.Rules = append(cfg.Rules, zzC02RandRule(rng, names, i+1))
+		randRules := func() (rules []zzC0102Rule) {
+			rules = []zzC0102Rule{}
+			nr := rng.Intn(13)
+			if rng.Intn(6) == 0 {
+				nr = 0
+			}
+			for i := 0; i < nr; i++ {
+				rules = append(rules, zzC02RandRule(rng, names, i+1))
+			}
+
+			return rules
 		}
+
+		cfg := zzC0102Cfg{Rules: randRules()}
 		cfg.Mode = []string{"default", "refused", "nxdomain", "null_ip", "custom_ip"}[rng.Intn(5)]
 		cfg.Prot = []string{"on", "on", "on", "on", "off", "paused", "expired"}[rng.Intn(7)]
 		cfg.Filt = rng.Intn(6) != 0
 		cfg.Svc = "none"
 		cfg.AAAAOff = rng.Intn(4) == 0
+		cfg.Cache = rng.Intn(3) == 0
 		cfg.Client = zzC0102Client{Known: rng.Intn(2) == 0, Filt: true, Svc: "inherit"}
 		if cfg.Client.Known {
 			cfg.Client.UseOwn = rng.Intn(2) == 0
@@ -216,38 +265,86 @@ func TestZZVerifC02Trace(t *testing.T) {
 			t.Fatalf("building %s: %v", zzC0102JSON(cfg), err)
 		}
 
-		w.put(map[string]any{"ev": "cfg", "ci": ci, "cfg": cfg, "lists": z.texts})
-		for qi := 0; qi < 30; qi++ {
-			var ans []zzC0102RR
-			for k, na := 0, rng.Intn(6); k < na; k++ {
-				switch rng.Intn(6) {
-				case 0, 1:
-					ans = append(ans, zzC0102RR{T: "CNAME", N: names[1+rng.Intn(3)]})
-				case 2:
-					ans = append(ans, zzC0102RR{T: "A", A: zzC02V4[rng.Intn(3)]})
-				case 3:
-					ans = append(ans, zzC0102RR{T: "AAAA", A: zzC02V6[rng.Intn(3)]})
-				case 4:
-					rr := zzC0102RR{T: "HTTPS"}
-					for j, m := 0, rng.Intn(3); j < m; j++ {
-						rr.H4 = append(rr.H4, zzC02V4[rng.Intn(3)])
+		// owner names: the question name, a CNAME target, an unrelated name
+		owners := [][]string{{}, {}, names[1], names[2], names[3], {"u", "example"}}
+		qn := 0
+		cur := cfg
+		for step, steps := 0, 1+rng.Intn(3); step < steps; step++ {
+			if step > 0 {
+				next := cur
+				next.Rules = randRules()
+				if rng.Intn(3) == 0 {
+					kept := []zzC0102Rule{}
+					for _, r := range next.Rules {
+						if r.Place != "allow" {
+							kept = append(kept, r)
+						}
 					}
-					for j, m := 0, rng.Intn(3); j < m; j++ {
-						rr.H6 = append(rr.H6, zzC02V6[rng.Intn(3)])
-					}
-					ans = append(ans, rr)
-				default:
-					ans = append(ans, zzC0102RR{T: "TXT"})
+					next.Rules = kept
 				}
+				next.Mode = []string{"default", "refused", "nxdomain", "null_ip", "custom_ip"}[rng.Intn(5)]
+				if err = z.reconfigure(&next, rng); err != nil {
+					t.Fatalf("reconfiguring: %v\n%s", err, strings.Join(z.ops, "\n"))
+				}
+				cur = next
 			}
 
-			qts := []string{"A", "HTTPS", "AAAA"}
-			if cfg.AAAAOff {
-				qts = qts[:2]
+			w.put(map[string]any{"ev": "cfg", "ci": ci, "step": step, "cfg": cur, "lists": z.texts})
+			for qi := 0; qi < 20; qi++ {
+				var ans []zzC0102RR
+				for k, na := 0, rng.Intn(6); k < na; k++ {
+					own := owners[rng.Intn(len(owners))]
+					switch rng.Intn(6) {
+					case 0, 1:
+						ans = append(ans, zzC0102RR{T: "CNAME", O: own, N: names[1+rng.Intn(3)]})
+					case 2:
+						ans = append(ans, zzC0102RR{T: "A", O: own, A: zzC02V4[rng.Intn(3)]})
+					case 3:
+						ans = append(ans, zzC0102RR{T: "AAAA", O: own, A: zzC02V6[rng.Intn(3)]})
+					case 4:
+						rr := zzC0102RR{T: "HTTPS", O: own}
+						for j, m := 0, rng.Intn(3); j < m; j++ {
+							rr.H4 = append(rr.H4, zzC02V4[rng.Intn(3)])
+						}
+						for j, m := 0, rng.Intn(3); j < m; j++ {
+							rr.H6 = append(rr.H6, zzC02V6[rng.Intn(3)])
+						}
+						ans = append(ans, rr)
+					default:
+						ans = append(ans, zzC0102RR{T: "TXT", O: own})
+					}
+				}
+				if rng.Intn(3) == 0 {
+					// any order: reversed sections too
+					for i, j := 0, len(ans)-1; i < j; i, j = i+1, j-1 {
+						ans[i], ans[j] = ans[j], ans[i]
+					}
+				}
+
+				qts := []string{"A", "HTTPS", "AAAA"}
+				if cfg.AAAAOff {
+					qts = qts[:2]
+				}
+
+				// With the cache on every request asks its own name under
+				// the queried name (a cache answers by question; the
+				// upstream's answer differs from request to request).
+				name := qname
+				if cfg.Cache {
+					qn++
+					name = append([]string{"n" + strconv.Itoa(qn)}, qname...)
+				}
+				req := zzC0102Req{Name: name, Qtype: qts[rng.Intn(len(qts))], Client: []string{"c1", "c1", "c2"}[rng.Intn(3)]}
+				sends := 1
+				if cfg.Cache {
+					sends = 2
+				}
+				for k := 0; k < sends; k++ {
+					o := z.query(&req, ans, rng, "")
+					w.put(map[string]any{"ev": "q", "req": req, "ans": zzC0102FullRRs(ans), "rep": o.Rep,
+						"obs": o.Out, "concrete": o.Concrete})
+				}
 			}
-			req := zzC0102Req{Name: qname, Qtype: qts[rng.Intn(len(qts))], Client: []string{"c1", "c1", "c2"}[rng.Intn(3)]}
-			o := z.query(&req, ans, rng, "")
-			w.put(map[string]any{"ev": "q", "req": req, "ans": zzC0102FullRRs(ans), "obs": o.Out, "concrete": o.Concrete})
 		}
 
 		z.close()
